@@ -138,11 +138,11 @@ def worker_env(extra=None):
     return env
 
 
-def run_shards(prop, tier, seed, descs, timeout_s, max_workers=None, env_for=None):
-    """Run every shard in a fresh interpreter; return (results, keys, inconclusive)."""
+def run_shards(prop, tier, seed, descs, timeout_s, max_workers=None, env_for=None, only=None):
+    """Run every shard (or the shards whose indices are in `only`) in a fresh interpreter; return (results, keys, inconclusive)."""
     max_workers = max_workers or min(16, os.cpu_count() or 4)
     tmpdir = tempfile.mkdtemp(prefix="rv-%s-" % prop)
-    pending = list(enumerate(descs))
+    pending = [(i, d) for i, d in enumerate(descs) if only is None or i in only]
     running = {}
     results, keys, inconc = [], set(), []
     try:
@@ -358,5 +358,23 @@ def replay(prop, path):
             prop, path, bad[0]["label"], dumps(bad[0]["observed"])[:300],
             dumps(bad[0]["expected"])[:300]))
         return 1
+    # the case alone does not show it: a witness may depend on what the shard did before it (order- and history-dependent
+    # defects).  Shards are deterministic in (seed, tier, shard index): re-run the very shard the witness came from, in a
+    # fresh interpreter, and look for the same label on the same case.
+    if "shard" in v and os.environ.get("RV_REPLAY_SHARD", "1") == "1":
+        tier, seed = v.get("tier", "quick"), int(v.get("seed", 0))
+        descs = mod.shards(tier, seed)
+        if 0 <= v["shard"] < len(descs):
+            timeout_s = getattr(mod, "TIMEOUT", {}).get(tier, 900)
+            results, _, inconc = run_shards(prop, tier, seed, descs, timeout_s, max_workers=1,
+                                            env_for=getattr(mod, "env_for", None), only=[v["shard"]])
+            for r in results:
+                for x in r["violations"]:
+                    if x["label"] == v["label"] and match_known(x, known) is None and \
+                            (x["case"] == v["case"] or x["features"] == v.get("features")):
+                        print("VIOLATION property=%s replay=%s label=%s observed=%s expected=%s (reproduced by re-running "
+                              "shard %d of seed %d, tier %s)" % (prop, path, x["label"], dumps(x["observed"])[:300],
+                                                                  dumps(x["expected"])[:300], v["shard"], seed, tier))
+                        return 1
     print("%s replay %s: not reproduced on this tree (held)" % (prop, path))
     return 0
